@@ -22,7 +22,8 @@ import vlib
 
 FINVS = ["NotEarly", "DoomOnlyByFault"]
 FPROPS = ["NoReportAfterDoom"]
-DEVS = ("Dev_CtxAwareWait", "Dev_SwallowFlushError", "Dev_IgnoreBarrierFlushError", "Dev_ReportWithoutCancel")
+DEVS = ("Dev_CtxAwareWait", "Dev_SwallowFlushError", "Dev_IgnoreBarrierFlushError", "Dev_ReportWithoutCancel",
+        "Dev_SwallowEventFlushError", "Dev_SwallowWatermarkFlushError")
 
 
 def lib():
@@ -101,6 +102,22 @@ def gen_witness(dev, consts, limit, num, seed):
     return dev, consts, behs, r
 
 
+def gen_witness_bfs(dev, consts, limit, seed):
+    """witnesses too rare for random simulation: TLC enumerates the whole (small) state graph with CexDump as its only
+    invariant and prints one shortest history per forbidden state; a seeded choice among the shortest is replayed"""
+    import random
+    consts = dict(consts, MaxLen=400, FaultFrom="@{0}")
+    r = vlib.run_tlc("Align", cfg=dict(constants=consts, invariants=["CexDump"], view="view"), workers=2, timeout=300, name="Align-cexbfs")
+    if not r.ok:
+        raise vlib.MachineryError("witness enumeration failed for %s: %s %s" % (dev, r.error, r.violated))
+    behs = sorted(r.behaviours, key=lambda b: (len(b), json.dumps(b, sort_keys=True)))
+    if behs:
+        short = [b for b in behs if len(b) <= len(behs[0]) + 2]
+        random.Random(seed).shuffle(short)
+        behs = short[:limit]
+    return dev, consts, behs, r
+
+
 def witness_consts(dev, honour, **kw):
     """the smallest fault environment in which the deviation reaches a forbidden state"""
     d = dict(NS=2, K=2, MaxScript=4, MaxSize=2, MaxW=1)
@@ -111,6 +128,13 @@ def witness_consts(dev, honour, **kw):
         return F(honour, cancel=0, hfail=1, Dev_SwallowFlushError=True, **d)
     if dev == "Dev_IgnoreBarrierFlushError":
         return F(honour, cancel=0, hfail=1, Dev_IgnoreBarrierFlushError=True, **d)
+    if dev == "Dev_SwallowEventFlushError":
+        return F(honour, cancel=0, hfail=1, Dev_SwallowEventFlushError=True, **d)
+    if dev == "Dev_SwallowWatermarkFlushError":
+        # a watermark's flush needs due timers (both runners' watermarks) and an acknowledged event pending in the batch:
+        # enumerated exhaustively (gen_witness_bfs), hence one checkpoint and no batch timer
+        d.update(K=1, MaxW=1, UseTimer=False, MaxFires=0)
+        return F(honour, cancel=0, hfail=1, Dev_SwallowWatermarkFlushError=True, **d)
     if dev == "Dev_ReportWithoutCancel":
         # a report detached from the caller's context is only harmful together with a pre-checkpoint flush whose
         # error is ignored (the repaired defect): the witnesses are those of the pair
@@ -162,7 +186,9 @@ def run_arm(c):
             ("Dev_CtxAwareWait", witness_consts("Dev_CtxAwareWait", False), s + 12),
             ("Dev_SwallowFlushError", witness_consts("Dev_SwallowFlushError", True), s + 13),
             ("Dev_IgnoreBarrierFlushError", witness_consts("Dev_IgnoreBarrierFlushError", True), s + 14),
-            ("Dev_ReportWithoutCancel", witness_consts("Dev_ReportWithoutCancel", True), s + 15)]
+            ("Dev_ReportWithoutCancel", witness_consts("Dev_ReportWithoutCancel", True), s + 15),
+            ("Dev_SwallowEventFlushError", witness_consts("Dev_SwallowEventFlushError", False), s + 31),
+            ("Dev_SwallowWatermarkFlushError", witness_consts("Dev_SwallowWatermarkFlushError", True), s + 32)]
     if not quick:
         wits += [("Dev_CtxAwareWait", witness_consts("Dev_CtxAwareWait", True, NS=3, MaxScript=5, MaxSize=3), s + 16),
                  ("Dev_SwallowFlushError", witness_consts("Dev_SwallowFlushError", False, NS=3, MaxScript=5, MaxSize=3, MaxFires=2), s + 17),
@@ -171,7 +197,8 @@ def run_arm(c):
     vlib.build("align")
     with ThreadPoolExecutor(max_workers=4) as ex:
         fs = [ex.submit(gen_sim, k, nsim, sd) for k, sd in sims]
-        fw = [ex.submit(gen_witness, dev, k, nwit, wnum, sd) for dev, k, sd in wits]
+        fw = [ex.submit(gen_witness_bfs, dev, k, nwit, sd) if dev == "Dev_SwallowWatermarkFlushError" else
+              ex.submit(gen_witness, dev, k, nwit, wnum, sd) for dev, k, sd in wits]
         gsims = [f.result() for f in fs]
         gwits = [f.result() for f in fw]
 
